@@ -51,6 +51,7 @@ type incarnation struct {
 	firstSeq   int             // sequence number of the first record of this incarnation (-1 = none yet)
 	claims     map[string]bool // instances whose tokens this incarnation was asked to take over
 	fileTokens map[uint32]bool // tokens found in the tokens file at start: inherited as they are
+	published  map[uint32]bool // tokens this incarnation has published before: re-inserted as remembered after a loss of its entry
 }
 
 type step struct {
@@ -165,7 +166,7 @@ func TestLifecyclersRapid(t *testing.T) {
 						fileExists = true
 					}
 				}
-				inc := &incarnation{id: cfgs[i].ID, idx: i, n: len(incs), fresh: !exists && !fileExists, firstSeq: -1, fileTokens: map[uint32]bool{}, claims: map[string]bool{}}
+				inc := &incarnation{id: cfgs[i].ID, idx: i, n: len(incs), fresh: !exists && !fileExists, firstSeq: -1, fileTokens: map[uint32]bool{}, claims: map[string]bool{}, published: map[uint32]bool{}}
 				if fileExists {
 					if toks, err := ring.LoadTokensFromFile(cfgs[i].TokensPath); err == nil {
 						for _, tk := range toks {
@@ -485,6 +486,9 @@ func TestLifecyclersRapid(t *testing.T) {
 							if in.fileTokens[tk] {
 								continue // inherited from the tokens file: kept as it is
 							}
+							if in.published[tk] {
+								continue // remembered: re-registration after its entry was lost (forgotten by somebody)
+							}
 							if o, clash := others[tk]; clash {
 								fail("%s chose token %d, which was visible in the ring as a token of %s", r.Writer, tk, o)
 								return
@@ -493,6 +497,9 @@ func TestLifecyclersRapid(t *testing.T) {
 					}
 					if added > 0 {
 						vx.Class("writes_adding_tokens", 1)
+					}
+					for _, tk := range after.Tokens {
+						in.published[tk] = true
 					}
 					// automatic publication of ACTIVE after a fresh join: the full token count
 					if in.fresh && !r.Explicit && after.State == ring.ACTIVE && (!had || before.State != ring.ACTIVE) {
